@@ -12,6 +12,7 @@
 // acts: t:<pin> (pinset records pin, then Track)  u:<c> (pinset drops c, then Untrack)
 //       r:<c> Recover  R RecoverAll  e:<c> daemon applies the parked call for c
 //       k:<c> daemon applies (if not yet) and answers nil  x:<c> daemon answers an error
+//       (eP/eU, kP/kU, xP/xU address the oldest parked Pin / Unpin call of that cid)
 //       l:<c> daemon loses the pin
 // pin = c.k.m.t  k: h here(+1 other) e everywhere g cluster-dag here r remote z remote(no allocations)
 //                   m meta 0 api.PinCid ; m: r|d ; t: option variant 0..9
@@ -235,14 +236,25 @@ func modeLetter(m api.PinMode) string {
 	return "r"
 }
 
-// oldest live parked call for cid c (caller holds mu)
-func (d *daemon) callFor(c int) *pcall {
+// oldest live parked call for cid c, of kind sel ('P' / 'U') when sel != 0 (caller holds mu)
+func (d *daemon) callFor(c int, sel byte) *pcall {
 	for _, pc := range d.parked {
-		if pc.cid == c && pc.ctx.Err() == nil {
+		if pc.cid == c && pc.ctx.Err() == nil && (sel == 0 || pc.kind == sel) {
 			return pc
 		}
 	}
 	return nil
+}
+
+// splitDaemonAct splits e|k|x[P|U] into the action letter and the call-kind selector.
+func splitDaemonAct(t string) (string, byte, bool) {
+	if len(t) == 1 && strings.Contains("ekx", t) {
+		return t, 0, true
+	}
+	if len(t) == 2 && strings.Contains("ekx", t[:1]) && (t[1] == 'P' || t[1] == 'U') {
+		return t[:1], t[1], true
+	}
+	return "", 0, false
 }
 
 func (d *daemon) applyEffect(pc *pcall) {
@@ -448,10 +460,10 @@ func (w *world) infosTok(l []*api.PinInfo) string {
 }
 
 // release applies a daemon-side action to the oldest live parked call for cid c (no waiting).
-func (w *world) release(kind string, c int) {
+func (w *world) release(kind string, sel byte, c int) {
 	w.d.mu.Lock()
 	defer w.d.mu.Unlock()
-	pc := w.d.callFor(c)
+	pc := w.d.callFor(c, sel)
 	if pc == nil {
 		return
 	}
@@ -477,7 +489,11 @@ func (w *world) act(a string) (string, bool) {
 		// the daemon's answer races with an instruction: release, do not wait, instruct
 		d, ins := a[:i], a[i+1:]
 		f := strings.SplitN(d, ":", 2)
-		if len(f) != 2 || (f[0] != "k" && f[0] != "x") {
+		if len(f) != 2 {
+			return "", false
+		}
+		dact, dsel, dok := splitDaemonAct(f[0])
+		if !dok || dact == "e" {
 			return "", false
 		}
 		c, err := strconv.Atoi(f[1])
@@ -490,7 +506,7 @@ func (w *world) act(a string) (string, bool) {
 		if !w.validInstr(ins) {
 			return "", false
 		}
-		w.release(f[0], c)
+		w.release(dact, dsel, c)
 		for k := 0; k < w.jitter; k++ {
 			runtime.Gosched()
 		}
@@ -537,7 +553,7 @@ func (w *world) act(a string) (string, bool) {
 			w.late = append(w.late, ch)
 			return "ret=p", true
 		}
-	case "u", "r", "e", "k", "x", "l":
+	case "u", "r", "e", "k", "x", "l", "eP", "kP", "xP", "eU", "kU", "xU":
 		c, err := strconv.Atoi(f[1])
 		if err != nil || c < 0 || c >= w.n {
 			return "", false
@@ -570,8 +586,9 @@ func (w *world) act(a string) (string, bool) {
 			default:
 				return "ret=p:-", true
 			}
-		case "e", "k", "x":
-			w.release(f[0], c)
+		case "e", "k", "x", "eP", "kP", "xP", "eU", "kU", "xU":
+			dact, dsel, _ := splitDaemonAct(f[0])
+			w.release(dact, dsel, c)
 			w.settle()
 			return "ret=-", true
 		case "l":
@@ -725,6 +742,37 @@ func (g *gen) parkedCids() []int {
 	return l
 }
 
+// sel chooses which parked call for cid c a daemon action addresses: "" = the oldest; "P" / "U" = the oldest
+// Pin / Unpin call. Several live calls for one cid (a request that outlived the operation that cancelled it)
+// are addressed individually, so that the later request can be answered before the earlier one.
+func (g *gen) sel(c int) string {
+	g.w.d.mu.Lock()
+	var kinds []byte
+	for _, pc := range g.w.d.parked {
+		if pc.cid == c && pc.ctx.Err() == nil {
+			kinds = append(kinds, pc.kind)
+		}
+	}
+	g.w.d.mu.Unlock()
+	r := g.r
+	switch {
+	case len(kinds) >= 2:
+		return string(kinds[r.Intn(len(kinds))])
+	case len(kinds) == 1:
+		x := r.Intn(20)
+		if x < 6 {
+			return string(kinds[0])
+		}
+		if x == 6 { // the other kind: nothing to answer
+			if kinds[0] == 'P' {
+				return "U"
+			}
+			return "P"
+		}
+	}
+	return ""
+}
+
 func (g *gen) pinTok(c int) string {
 	r := g.r
 	ks := []string{"h", "h", "h", "h", "h", "e", "e", "g", "r", "r", "r", "z", "m"}
@@ -795,7 +843,8 @@ func (g *gen) next() string {
 				return fmt.Sprintf("r:%d", r.Intn(n))
 			}
 		} else {
-			return fmt.Sprintf("k:%d", parked[r.Intn(len(parked))])
+			c := parked[r.Intn(len(parked))]
+			return fmt.Sprintf("k%s:%d", g.sel(c), c)
 		}
 	}
 	if g.profile == 5 {
@@ -868,6 +917,7 @@ func (g *gen) next() string {
 				}
 			}
 		}
+		sl := g.sel(c)
 		y := r.Intn(20)
 		fault := 4
 		if g.profile == 3 {
@@ -886,13 +936,13 @@ func (g *gen) next() string {
 			}
 			ins := g.instr()
 			g.hot, g.profile = save, savep
-			return fmt.Sprintf("%s:%d&%s", d, c, ins)
+			return fmt.Sprintf("%s%s:%d&%s", d, sl, c, ins)
 		case y < 3+fault:
-			return fmt.Sprintf("x:%d", c)
+			return fmt.Sprintf("x%s:%d", sl, c)
 		case y < 5+fault:
-			return fmt.Sprintf("e:%d", c)
+			return fmt.Sprintf("e%s:%d", sl, c)
 		default:
-			return fmt.Sprintf("k:%d", c)
+			return fmt.Sprintf("k%s:%d", sl, c)
 		}
 	}
 }
